@@ -332,6 +332,12 @@ def gen_lifecycle_sched(rng, tier, mult=1):
         for k in range(chunks):
             yield {"kind": "lifecycle_sched", "server": "tftp", "threads": th, "order": list(range(len(th))), "busy": 60,
                    "sweep": [k, chunks], "servers": 2, "max_steps": 20000, "_meta": {"style": "lifecycle-sched-busy"}}
+    # steady traffic on the request port (a stray one-byte datagram whenever the loop looks): stop() must still be noticed
+    for th in ([["start", "pause", "stop"]], [["start", "pause", "stop", "start", "pause", "stop"]],
+               [["start", "pause", "stop"], ["pause", "stop"]]):
+        for k in range(chunks):
+            yield {"kind": "lifecycle_sched", "server": "tftp", "threads": th, "order": list(range(len(th))), "flood": True,
+                   "sweep": [k, chunks], "servers": 2, "max_steps": 6000, "_meta": {"style": "lifecycle-sched-flood"}}
     for i in range((150 if tier == "quick" else 6000) * mult):
         nt = rng.choice([2, 2, 3])
         th = [PROGRAMS[rng.randrange(len(PROGRAMS))] for _ in range(nt)]
